@@ -61,10 +61,13 @@ type occKey struct {
 type truth struct {
 	nodes map[occKey]*info   // every addressable struct value of the tree by (address, type)
 	order []*info            // all nodes in reflection pre-order
+	elem  bool               // the next value visited is an element of a slice
 	vars  map[occKey][]*info // occurrences of nodes without pointer identity of their own: shared Vars, zero-size nodes
 }
 
 func (tr *truth) visit(v reflect.Value, parent *info, byValue bool) {
+	elem := tr.elem // v is an element of a slice: a position of the tree of its own, also when nothing is written there
+	tr.elem = false
 	switch v.Kind() {
 	case reflect.Ptr:
 		if v.IsNil() {
@@ -98,7 +101,7 @@ func (tr *truth) visit(v reflect.Value, parent *info, byValue bool) {
 		if !v.CanAddr() {
 			return
 		}
-		zero := byValue && v.IsZero() // an unset alternative (ClassElement.Field of a method, PropertyName.Literal of a computed key) or an empty Params: may be visited, need not be
+		zero := byValue && v.IsZero() && !elem // an unset alternative (ClassElement.Field of a method, PropertyName.Literal of a computed key) or an empty Params: may be visited, need not be
 		addr := v.UnsafeAddr()
 		in := &info{addr: addr, typ: v.Type(), parent: parent, byValue: byValue, required: isNodeType(v.Type()) && !zero}
 		if in.required {
@@ -130,6 +133,7 @@ func (tr *truth) visit(v reflect.Value, parent *info, byValue bool) {
 			return
 		}
 		for i := 0; i < v.Len(); i++ {
+			tr.elem = true
 			tr.visit(v.Index(i), parent, true)
 		}
 	}
